@@ -7,7 +7,7 @@ import pipe
 
 ID = "C03"
 MODULE = "C03"
-IMPORTS = "Bytes RustInt Range CacheControl Cache CacheProofs Fixture CacheX CacheXProofs CacheXWitness CacheKey CacheKeyProofs RuleSet CacheRules CacheRulesProofs"
+IMPORTS = "Bytes RustInt Range CacheControl Cache CacheProofs Fixture CacheX CacheXProofs CacheXWitness CacheKey CacheKeyProofs RuleSet CacheRules CacheRulesProofs CacheReachProofs CacheFixtureProofs"
 PROFILES = ("dev",)
 MAX_NOT_EXECUTED = 0
 _PINS = json.load(open(os.path.join(os.path.dirname(os.path.abspath(__file__)), "pins", "C03.json")))
@@ -16,6 +16,7 @@ THEOREMS = [(n, _PINS[n]) for n in ("cache_transparent", "cache_hit_same_class",
                                     "key_is_raw_path", "decoded_key_collides_refuted",
                                     "vary_rules_most_specific", "vary_exact_rule_wins", "vary_longest_pattern_wins",
                                     "length_first_shadows_exact_refuted",
+                                    "cache_transparent_reachable", "fixture_honours_contract", "fixture_cache_transparent",
                                     "override_poisons_refuted", "stream_vary_refuted", "qm_variant_refuted")]
 RULE = ("histories of requests/clears/waits against kvarn::handle_cache in process (harness/src/c04x.rs): (a) host with response cache vs. the Coq cache "
         "model Model/CacheX.v (component pipex.run; correspondence: status, vary / x-h / last-modified presence, decoded body, identity body, stream, "
@@ -248,12 +249,13 @@ def spell_cases(rng, tier):
                     directed = [directed[0], rng.choice(directed[1:])]
                 for h in directed:
                     ops = [pipe.req(t, method=b"HEAD" if (j == 1 and rng.random() < 0.3) else b"GET") for j, t in enumerate(h)]
-                    cases += mk_cases(rng, hs, ops, rng.random() < 0.5, "spell", nocache_run=(tier != "quick"))
+                    cases += mk_cases(rng, hs, ops, rng.random() < 0.5, "spell", nocache_run=(tier != "quick"), expect_wf=(mode != 1 or sp == 1))
     # random histories over the spellings of two paths
     for i in range(30 if tier == "quick" else 600):
         (p1, o1), (p2, o2) = rng.sample(SPELLINGS, 2)
         sp = rng.choice([1, 2, 2, 0])
-        hs = spell_handlers(rng, p1, o1, rng.choice([0, 1, 2]), sp) + spell_handlers(rng, p2, o2, rng.choice([0, 1, 2]), sp)
+        m1, m2 = rng.choice([0, 1, 2]), rng.choice([0, 1, 2])
+        hs = spell_handlers(rng, p1, o1, m1, sp) + spell_handlers(rng, p2, o2, m2, sp)
         uris = [p1] + o1 + [p2] + o2
         qs = [b"", b"?a=1", b"?a=2"] if sp == 1 else [b""]
         ops = []
@@ -264,7 +266,8 @@ def spell_cases(rng, tier):
                 ops.append(pipe.clear_page(u))
             else:
                 ops.append(pipe.req(u + rng.choice(qs), method=rng.choice([b"GET", b"GET", b"GET", b"HEAD", b"POST"]), addr=rng.randrange(1, 4)))
-        cases += mk_cases(rng, hs, ops, rng.random() < 0.4, "spell/random", pair=(i % 2 == 0), nocache_run=(i % 3 == 0))
+        cases += mk_cases(rng, hs, ops, rng.random() < 0.4, "spell/random", pair=(i % 2 == 0), nocache_run=(i % 3 == 0),
+                          expect_wf=(sp == 1 or 1 not in (m1, m2)))
     # files: the content type is guessed from the extension of the raw path, the file is read from the decoded one (real-vs-real only:
     # the file system is not in Model/CacheX.v)
     files = [xl(xb(b"public/data.json"), xb(b"{\"k\": 1}")), xl(xb(b"public/page.html"), xb(b"<!DOCTYPE html><p>page</p>")), xl(xb(b"public/t.txt"), xb(b"text"))]
@@ -326,7 +329,7 @@ def rules_cases(rng, tier):
                         continue
                     ops.append(pipe.req(pg, method=rng.choice([b"GET", b"GET", b"GET", b"HEAD", b"POST"]),
                                         headers=[(x, rng.choice(vals)) for x in RULE_HDRS if rng.random() < 0.7]))
-            cases += mk_cases(rng, hs, ops, rng.random() < 0.3, "rules", vary=vary, pair=True, nocache_run=(tier != "quick" or n % 3 == 0))
+            cases += mk_cases(rng, hs, ops, rng.random() < 0.3, "rules", vary=vary, pair=True, nocache_run=(tier != "quick" or n % 3 == 0), expect_wf=True)
             n += 1
     return cases
 
@@ -361,11 +364,13 @@ def expand_cases(rng, tier):
                     else:
                         ops.append(pipe.req(u + (rng.choice([b"", b"?x=1"]) if sp == 1 else b""), method=rng.choice([b"GET", b"GET", b"GET", b"HEAD", b"POST"]),
                                             headers=[(b"x-w", rng.choice([b"a", b"zz", b"N", b"abc"]))] if rng.random() < 0.85 else []))
-            cases += mk_cases(rng, hs, ops, True, "expand", vary=vary, pair=True, nocache_run=(tier != "quick"))
+            cases += mk_cases(rng, hs, ops, True, "expand", vary=vary, pair=True, nocache_run=(tier != "quick"), expect_wf=True)
     return cases
 
 
-def mk_cases(rng, hs, ops, default_ext, kind, xhs=(), vary=(), pair=True, run=True, nocache_run=True, **cfgkw):
+def mk_cases(rng, hs, ops, default_ext, kind, xhs=(), vary=(), pair=True, run=True, nocache_run=True, expect_wf=False, **cfgkw):
+    """expect_wf: the configuration is built to lie inside the domain of theorem fixture_cache_transparent (Model/CacheRules.v wf_fixture,
+    evaluated by the model side as component pipex.wf); a scenario that does not is a generator error, reported loudly"""
     out = []
     kw = dict(default_ext=default_ext, handlers=hs, report=[xb(r) for r in REPORT], disable_ims=False, **cfgkw)
     if xhs:
@@ -378,7 +383,7 @@ def mk_cases(rng, hs, ops, default_ext, kind, xhs=(), vary=(), pair=True, run=Tr
             out.append(Case("pipex.run", pipe.scenario(c, ops), "pipex.run_nocache" if cache else None,
                             {"kind": kind + ("/cache" if cache else "/nocache")}))
     if pair:
-        out.append(Case("pipex.pair", pipe.scenario(pipe.cfg(cache=True, **kw), ops), None, {"kind": kind + "/pair"}))
+        out.append(Case("pipex.pair", pipe.scenario(pipe.cfg(cache=True, **kw), ops), "pipex.wf", {"kind": kind + "/pair", "expect_wf": expect_wf}))
     return out
 
 
@@ -468,8 +473,16 @@ def _hdrs(h):
     return [p for p in h[1] if p[1][0] != ("B", b"last-modified")]
 
 
+_WF = {}
+
+
 def spec_ok(c, impl, spec):
-    """reply of the caching host == reply of the cache-less model on status, reported headers, decoded body, identity body, stream."""
+    """reply of the caching host == reply of the cache-less model on status, reported headers, decoded body, identity body, stream.
+    For the real-vs-real cases the 'spec' is the model's verdict wf_fixture on the configuration (does theorem fixture_cache_transparent
+    apply?): recorded for the coverage figures and for harness_trouble; the real-vs-real comparison itself is extra_oracle's."""
+    if c.comp == "pipex.pair":
+        _WF[c.id] = spec
+        return True
     try:
         a, b = _replies(impl), _replies(spec)
     except Exception:
@@ -503,6 +516,10 @@ def out_of_domain(c, impl):
 
 
 def harness_trouble(cases, impl, model):
+    off = [c for c in cases if c.comp == "pipex.pair" and c.meta.get("expect_wf") and _WF.get(c.id) not in (None, "(N 1)")]
+    if off:
+        return "generator error: %d scenario(s) built for the domain of fixture_cache_transparent are rejected by wf_fixture (%s): %s" % (
+            len(off), _WF.get(off[0].id), ", ".join("%s[%s]" % (c.id, c.meta.get("kind")) for c in off[:8]))
     timed = [c for c in cases if "timed" in c.meta.get("kind", "")]
     bad = [c for c in timed if (impl.get(c.id) or "").startswith("(L (N 93)")]
     if timed and len(bad) * 3 > len(timed):
@@ -513,7 +530,14 @@ def harness_trouble(cases, impl, model):
 
 def extra_coverage(cases, impl, model, spec):
     bad = [c for c in cases if (impl.get(c.id) or "").startswith("(L (N 93)")]
-    return {"timing_not_executed": len(bad), "timing_not_executed_ids": [{"id": c.id, "kind": c.meta.get("kind")} for c in bad][:30]}
+    pairs = [c for c in cases if c.comp == "pipex.pair"]
+    wf = {}
+    for c in pairs:
+        k = c.meta.get("kind", "-").split("/")[0]
+        a, b = wf.get(k, (0, 0))
+        wf[k] = (a + (spec.get(c.id) == "(N 1)"), b + 1)
+    return {"timing_not_executed": len(bad), "timing_not_executed_ids": [{"id": c.id, "kind": c.meta.get("kind")} for c in bad][:30],
+            "real_vs_real_scenarios_inside_fixture_cache_transparent": {k: "%d of %d" % v for k, v in sorted(wf.items())}}
 
 
 def signature(c, m):
